@@ -67,7 +67,7 @@ EARLIER SEEDS for this property - your mechanism must be unlike all of them (dif
 
 DELIVERABLES, all inside {wt}, left UNCOMMITTED:
 (a) the source change;
-(b) `tests/seeded_demo.rs`: a demonstration that PASSES on the unchanged tree and FAILS with your change, using only the public API and the existing dev-dependencies (tokio, http-body-util, tempfile, ... see Cargo.toml); verify both directions yourself (`git stash` the src change or use `git diff`/`git apply -R`);
+(b) `tests/seeded_demo.rs`: a demonstration that PASSES on the unchanged tree and FAILS with your change, using only the public API and the existing dev-dependencies (tokio, http-body-util, tempfile, ... see Cargo.toml); verify both directions yourself with `git diff -- src > /tmp/<your-own-name>.patch; git apply -R ...; <run>; git apply ...` - do NOT use `git stash`: the stash is shared by all worktrees of the repository and other agents work in sibling worktrees;
 (c) `SEEDED.md` at the worktree root: what was changed, why it breaks the property, exactly what it needs to manifest.
 Write files with your tools; do NOT paste file contents or long diffs into your messages. Keep every message short and your final report under 200 words (mechanism in two sentences, trigger conditions, confirmation that suite passes and demo fails/passes).'''
         open('/tmp/%s/%s.prompt.txt' % (tag, pid), 'w').write(prompt)
